@@ -63,7 +63,7 @@ type Fault struct {
 // Conn is one end of an in-memory connection.
 type Conn struct {
 	// CloseDelay: Close blocks for this long before it takes effect (set before the connection is handed out).
-	CloseDelay time.Duration
+	CloseDelay    time.Duration
 	rd, wr        *pipe
 	local, remote addr
 	closeOnce     sync.Once
@@ -399,6 +399,10 @@ type Listener struct {
 	// AcceptErr, if set, is returned once by the next Accept instead of a connection.
 	mu        sync.Mutex
 	acceptErr error
+	// ClosedErr selects how Accept reports a closed listener: "" = *net.OpError wrapping net.ErrClosed (as the net
+	// package does), "bare" = net.ErrClosed itself, "wrapped" = an error wrapping it with %w (as listeners of other
+	// packages do). errors.Is(err, net.ErrClosed) holds for all three.
+	ClosedErr string
 }
 
 func NewListener() *Listener {
@@ -417,6 +421,12 @@ func (l *Listener) Accept() (net.Conn, error) {
 	case c := <-l.ch:
 		return c, nil
 	case <-l.done:
+		switch l.ClosedErr {
+		case "bare":
+			return nil, net.ErrClosed
+		case "wrapped":
+			return nil, fmt.Errorf("memnet: accept: %w", net.ErrClosed)
+		}
 		return nil, &net.OpError{Op: "accept", Net: "memnet", Err: net.ErrClosed}
 	}
 }
